@@ -1,3 +1,4 @@
+import Generated.Facts
 import SsoSpec.C01
 
 /-!
@@ -242,5 +243,12 @@ def exHist : List Step :=
 example : (runW id exPol ⟨exSess, []⟩ exHist).2.map (·.outcome) =
     [.forward (some ⟨"a", [97, 64, 120], [], none⟩), .forward (some ⟨"a", [97, 64, 120], [], none⟩),
      .errorPage 500, .startOAuth] := by decide
+
+/-- Tie (T1): the proxy coalesces concurrent revalidations **by access token** and refreshes **by refresh token**
+(key expressions regenerated from `SingleFlightProvider`), so — by C16's key injectivity — a due check is merged only into
+a provider call made with the session's *own* token: a revoked token is never vouched for by another session of the user. -/
+theorem C04_checks_keyed_by_token :
+    Sso.Generated.sf_keys_proxy.lookup "ValidateSessionState" = some "s.AccessToken" ∧
+    Sso.Generated.sf_keys_proxy.lookup "RefreshSession" = some "s.RefreshToken" := by decide
 
 end Sso.Proxy
